@@ -9,6 +9,9 @@ RULE = ("every (generator, width, carry flags) with adder w<=4 (quick 3), mux w<
         "(error branches of mux/popcount), half/full adder; the returned graph is compared with the model and judged by the Coq "
         "oracle on ALL input vectors; helper calls: clog2 on -4..70, 2^k-1, 2^k, 2^k+1 (k<=70) and random 80-bit numbers, "
         "int_to_bin/bin_to_int on i<2^w, i>=2^w (no truncation), w=0, both endiannesses, random tuples incl. the empty one; "
+        "two-digit widths (mux 11-13, adder 11; popcount 12 by graph equality only in quick): graph equality plus the specification on a "
+        "SUBSET sweep of vectors generated in Coq (mux: every select value x zero/one-hot data; adder: zero, all ones, single bits, "
+        "carry from every position) -- a test on those vectors, not a decision for all vectors; "
         "thorough adds graph equality at widths up to 64 and a Python simulation pre-screen (support only); "
         "non-trivial = a block with at least one gate or a helper call with a non-zero argument; distinct = (function, arguments)")
 EXPLANATION = ("adder/mux/half/full adder and the helpers proved for every width over the model; model = implementation result by graph "
@@ -50,6 +53,15 @@ def generate(rng, tier):
                 out.append({"fn": "adder", "w": w, "ci": ci, "co": co})
     out += [{"fn": "mux", "w": w} for w in range(0, 7 if q else 9)]
     out += [{"fn": "popcount", "w": w} for w in range(0, 5 if q else 7)]
+    # widths with two-digit indices (in_10 sorts before in_2 ...): graph equality + the specification on a SUBSET of the
+    # input vectors generated in Coq (mux: every select value x one-hot/zero data; adder: zero, all ones, single bits, carries)
+    out += [{"fn": "mux", "w": w, "sweep": True} for w in ((11, 12, 13) if q else (11, 12, 13, 16, 17))]
+    out.append({"fn": "adder", "w": 11, "ci": True, "co": True, "sweep": True})
+    if q:
+        out.append({"fn": "popcount", "w": 12, "big": True})          # graph equality only (in_10, add_10)
+    else:
+        out.append({"fn": "adder", "w": 12, "ci": False, "co": True, "sweep": True})
+        out += [{"fn": "popcount", "w": w, "sweep": True} for w in (11, 12)]
     if not q:
         # graph equality at large widths + simulation pre-screen
         for w in (7, 8, 13, 16, 31, 32, 33, 64):
@@ -214,13 +226,17 @@ def to_coq(case, obs):
     if fn == "full_adder":
         return f"CFull {circ}" if circ else None
     w = cnat(case["w"])
+    kind = "Big" if case.get("big") else "Sweep" if case.get("sweep") else ""
     if fn == "adder":
         if not circ:
             return None
-        return f"{'CBigAdder' if case.get('big') else 'CAdder'} {w} {cb(case['ci'])} {cb(case['co'])} {circ}"
+        return f"C{'Big' if kind == 'Big' else ''}Adder{'Sweep' if kind == 'Sweep' else ''} {w} {cb(case['ci'])} {cb(case['co'])} {circ}" if kind else f"CAdder {w} {cb(case['ci'])} {cb(case['co'])} {circ}"
     rc = cexc(obs["exc"]) if "exc" in obs else f"(Ok {circ})"
-    if case.get("big"):
+    if kind == "Big":
         return f"{'CBigMux' if fn == 'mux' else 'CBigPop'} {w} {circ}" if circ else None
+    if kind == "Sweep":
+        # a block that is not even returned at these widths is judged by the exhaustive small-width cases
+        return f"{'CMuxSweep' if fn == 'mux' else 'CPopSweep'} {w} {circ}" if circ else f"CSim {cs(fn)} {w} 0%nat F"
     return f"{'CMux' if fn == 'mux' else 'CPop'} {w} {rc}"
 
 
@@ -241,7 +257,7 @@ def classify(case, obs):
     fn = case["fn"]
     if fn == "sim":
         return "sim:" + case["block"]
-    tag = fn + (":big" if case.get("big") else "")
+    tag = fn + (":big" if case.get("big") else ":sweep" if case.get("sweep") else "")
     if isinstance(obs, dict) and "exc" in obs:
         tag += ":" + obs["exc"]
     if fn == "i2b":
@@ -258,6 +274,10 @@ def mutate_case(rng, case):
     if fn in ("adder", "mux", "popcount"):
         c = dict(case)
         c.pop("big", None)
+        if c.get("sweep") and fn == "mux":
+            c["w"] = rng.randint(11, 17)
+            return c
+        c.pop("sweep", None)
         c["w"] = rng.randint(1, 4 if fn != "mux" else 8)
         c["ci"], c["co"] = rng.random() < 0.5, rng.random() < 0.5
         return c
